@@ -285,4 +285,47 @@ def getWith (cfg : Cfg) (d : Desc) (tokens : List Nat) (key : Nat) (op : Op) (no
 def get (cfg : Cfg) (d : Desc) (tokens : List Nat) (key : Nat) (op : Op) (now : Int) : Except Err RSet :=
   getWith cfg d tokens key op now cfg.rf
 
+/-! ## The same lookup with the token→owner index as a parameter
+
+`ringInstanceByToken` is built by `getTokensInfo` from a Go map: when two instances claim one token the
+entry that wins depends on the map iteration order, which `tokenInfo` (first entry in list order) does
+not reproduce. `walkO`/`getWithO` are `walk`/`getWith` with the index `owner` given from outside
+(`PfC01.getWithO_tokenInfo`: with `owner = tokenInfo d` they are the functions above), so that facts
+proved for EVERY `owner` cover whatever index the real ring holds. -/
+
+def walkO (cfg : Cfg) (d : Desc) (owner : Nat → Option Inst) (zones : List String) (target : Nat) (op : Op) :
+    List Nat → WalkSt → Except Err (List Inst)
+  | [], _ => .ok []
+  | t :: rest, st =>
+    if ¬ (st.distinct.length < min d.length st.size) then .ok []
+    else if cfg.zoneAware && canStopLooking zones (zoneTotal d) st target then .ok []
+    else match owner t with
+      | none => .error .inconsistentTokens
+      | some inst =>
+        if st.distinct.contains inst.id then walkO cfg d owner zones target op rest st
+        else if cfg.zoneAware && !zones.contains inst.zone then .error .inconsistentTokens
+        else if cfg.zoneAware && inst.zone != "" && decide (st.found inst.zone ≥ target) then
+          walkO cfg d owner zones target op rest st
+        else (walkO cfg d owner zones target op rest (st.select cfg op inst)).map (inst :: ·)
+
+def findInstancesForKeyO (cfg : Cfg) (d : Desc) (owner : Nat → Option Inst) (tokens : List Nat) (key : Nat) (op : Op)
+    (rf : Nat) : Except Err (List Inst) :=
+  if cfg.rf = 0 then .error .panic
+  else
+    let target := max 1 (rf / cfg.rf)
+    walkO cfg d owner (ringZones d) target op (rot tokens (searchToken tokens key)) { size := rf }
+
+def getWithO (cfg : Cfg) (d : Desc) (owner : Nat → Option Inst) (tokens : List Nat) (key : Nat) (op : Op) (now : Int)
+    (rfCall : Int) : Except Err RSet :=
+  if tokens.length = 0 then .error .emptyRing else
+  let rf : Nat := if rfCall ≤ 0 ∨ rfCall < cfg.rf then cfg.rf else rfCall.toNat
+  if rf > cfg.rf then .error .rfTooLarge
+  else do
+    let instances ← findInstancesForKeyO cfg d owner tokens key op rf
+    filter cfg op now rf instances
+
+/-- `updateRingState` first deletes every instance registered in one of `cfg.ExcludedZones`; the ring
+then indexes and serves the remaining descriptor. -/
+def excludeZones (excluded : List String) (d : Desc) : Desc := d.filter fun i => !excluded.contains i.zone
+
 end C01
